@@ -78,6 +78,12 @@ def save_replay(rep, prop, record):
 def classify(rep, known, obligation, key, what, record, reproduced):
     """one solver counterexample after native replay"""
     rep.replayed += 1
+    seen = rep.info.setdefault('_seen_keys', set())
+    if reproduced and (obligation.split('[')[0], key) in seen:
+        rep.info['duplicate_models_of_reported_keys'] = rep.info.get('duplicate_models_of_reported_keys', 0) + 1
+        return
+    if reproduced:
+        seen.add((obligation.split('[')[0], key))
     if not reproduced:
         rep.nonrepro.append('%s %s: solver model did not reproduce on the real build (%s)' % (obligation, key, what))
         return
@@ -559,11 +565,13 @@ def check_c04(rep):
                 what = 'lower-casing is not idempotent: %s -> %s -> %s' % (u(c), r, r2)
                 repro = r2 != r
             classify(rep, known, o.qid, key, what, {'inputs': {'c': c}, 'observed': {'lower': r, 'pattern': pat, 'matches': matched}}, repro)
-    # longer test cases and lists of test cases (lemma-based: sound only if Q04's all-SAT set is complete)
+    # longer test cases and lists of test cases: case mapping abstracted, constrained by table lemmas decided here
     f2 = o1.verdict.models if (o1.verdict and o1.result == 'sat') else []
-    complete = o1.result in ('unsat', 'sat') and 'cap' not in (o1.verdict.note or '')
+    lem = ob_add(rep, Q.qlem(env.ctx))
+    complete = o1.result in ('unsat', 'sat') and 'cap' not in (o1.verdict.note or '') and lem.result == 'unsat'
     if not complete:
-        rep.inconclusive.append('Q04n/Q04p skipped: the set of one-code-point counterexamples is not complete (%s)' % (o1.verdict.note if o1.verdict else o1.inconclusive))
+        rep.inconclusive.append('Q04n/Q04p skipped: the one-code-point result is incomplete or the table lemmas do not hold (%s / QLEM %s)' % (
+            o1.verdict.note if o1.verdict else o1.inconclusive, lem.result))
     else:
         more = [Q.q04n(env.ctx, 2, exclude=f2)]
         for lens in ([(1, 1), (1, 2)] if rep.tier == 'quick' else [(1, 1), (1, 2), (2, 2), (1, 1, 1)]):
@@ -827,7 +835,11 @@ def check_c10(rep):
     if o.result == 'sat':
         rep.nonrepro.append('Q10 is sat: %s (replay of setter pairs is done by the Kani harnesses below)' % json.dumps(o.verdict.models[0])[:300])
     # order of the input list, duplicates, repeated build(): the preprocessing at the head of RegExp::from
+    lem = ob_add(rep, Q.qlem(env.ctx))
     for lens in ([(1, 1), (1, 2)] if rep.tier == 'quick' else [(1, 1), (1, 2), (2, 2), (1, 1, 1)]):
+        if lem.result != 'unsat':
+            rep.inconclusive.append('Q10p skipped: the table lemmas it assumes are not established (QLEM %s)' % lem.result)
+            break
         po = ob_add(rep, Q.q10p(env.ctx, lens))
         if po.result != 'sat':
             continue
@@ -1090,6 +1102,7 @@ def check_cluster(rep, clause):
             inp = {'s': [ord(c) for c in s_], 'min_repetitions': mr, 'min_substring_length': ml}
             cases.append(('cluster_repetitions', inp, dict(inp, op='cluster_repetitions')))
     validate(env, rep, cases)
+    return env
 
 
 def check_c05(rep):
@@ -1105,7 +1118,10 @@ def check_c05(rep):
     rep.assumptions += ['HashMap is modelled as an insertion-ordered association list (the real iteration order is arbitrary; the code sorts the '
                         'entries by (length, first index), a total order on distinct keys, before using them)',
                         'itertools sorted_by_key / chunk_by / coalesce / tuple_windows and Vec::splice are modelled by their documented behaviour']
-    check_cluster(rep, 'notation')
+    env = check_cluster(rep, 'notation')
+    # the second mechanism the property names: merging of adjacent repeat counts while inserting into the trie
+    known, _ = load_known()
+    run_trie_obligations(rep, env, known, TRIE_SHAPES_QUICK if rep.tier == 'quick' else TRIE_SHAPES_THOROUGH)
 
 
 def check_c13(rep):
@@ -1121,8 +1137,199 @@ def check_c13(rep):
 
 
 def replay_c05(env, rec):
+    if 'clusters' in rec['inputs']:
+        return replay_c16(env, rec)
     i = rec['inputs']
     bad, what, _ = replay_cluster(env, i['s'], i['min_repetitions'], i['min_substring_length'], i.get('clause', 'notation'))
+    return bad, what
+
+
+# =========================================================================== C16 (trie stage) -- also run under C05 (edge merging)
+def trie_model_clusters(m, shape):
+    return [[(m['v%d_%d' % (i, j)], m['k%d_%d' % (i, j)]) for j in range(n)] for i, n in enumerate(shape)]
+
+
+def canonical_shape(clusters):
+    names, out = {}, []
+    for cl in clusters:
+        parts = []
+        for c, k in cl:
+            if c not in names:
+                names[c] = chr(ord('a') + len(names))
+            parts.append(names[c] + ('{%d}' % k if k > 1 else ''))
+        out.append(''.join(parts))
+    return '|'.join(out)
+
+
+first_widening = Q.first_widening
+
+
+def replay_trie(env, clusters):
+    """public-API replay: the clusters as plain strings, build() with repetition conversion, then the regex crate on the
+    tiny universe of strings over the letters used"""
+    strings = [[c for c, k in cl for _ in range(k)] for cl in clusters]
+    reach = env.eval([{'op': 'cluster_repetitions', 's': s_, 'min_repetitions': 1, 'min_substring_length': 1} for s_ in strings])
+    for cl, r in zip(clusters, reach):
+        top = [(row[1], row[2]) for row in r.get('ok', []) if row[0] == 0]
+        if top != [([[c]], k) for c, k in cl]:
+            return None, 'the clusters are not what convert_repetitions makes of their expansions (unreachable through the public API)', {}
+    got = env.eval([{'op': 'build', 'cases': strings, 'settings': {'repetitions': True}}])
+    pat = got[0].get('ok')
+    if pat is None:
+        return True, 'build() panics: %s' % got[0], {'build': got[0]}
+    alphabet = sorted(set(c for s_ in strings for c in s_))
+    max_len = max(len(s_) for s_ in strings) + 1
+    lang = env.eval([{'op': 'regex_language', 'pattern': pat, 'alphabet': alphabet, 'max_len': max_len}])[0].get('ok')
+    if not isinstance(lang, list):
+        return True, 'pattern %s does not compile' % json.dumps(''.join(map(chr, pat))), {'pattern': pat}
+    extra = [w for w in lang if w not in strings]
+    missing = [w for w in strings if w not in lang]
+    what = 'build(%s, repetitions) = %s' % ([''.join(map(chr, s_)) for s_ in strings], json.dumps(''.join(map(chr, pat))))
+    if extra:
+        what += ' also matches %s' % [''.join(map(chr, w)) for w in extra[:6]]
+    if missing:
+        what += ' does not match %s' % [''.join(map(chr, w)) for w in missing]
+    return bool(extra or missing), what, {'pattern': pat, 'extra': extra[:10], 'missing': missing}
+
+
+def run_trie_obligations(rep, env, known, shapes):
+    for shape in shapes:
+        o = Q.q16t(env.ctx, shape)
+        if o.result == 'sat':
+            d = o.as_dict()
+            d['result'] = 'superseded'
+            d['note'] = 'sat for arbitrary code points; re-decided over the letters a..z so that counterexamples are plain strings'
+            rep.obligations.append(d)
+            o = Q.q16t(env.ctx, shape, letters=True)
+        ob_add(rep, o)
+        if o.result != 'sat':
+            continue
+        if 'cap' in (o.verdict.note or ''):
+            rep.inconclusive.append('%s: more violating input shapes than the all-SAT cap; the listed set may be incomplete' % o.qid)
+        for m in o.verdict.models:
+            clusters = trie_model_clusters(m, shape)
+            ev = first_widening(clusters)
+            key = ('widening=%s' % ev) if ev else ('clusters=%s' % canonical_shape(clusters))
+            shape_txt = canonical_shape(clusters)
+            bad, what, obs = replay_trie(env, clusters)
+            if bad is None:
+                rep.replayed += 1
+                rep.info.setdefault('unreachable_trie_models', []).append(key)
+                continue
+            classify(rep, known, 'Q16t', key, 'input shape %s: %s' % (shape_txt, what), {'inputs': {'clusters': clusters}, 'observed': obs}, bad)
+
+
+TRIE_SHAPES_QUICK = [(1, 1), (2, 1), (1, 2), (2, 2)]
+TRIE_SHAPES_THOROUGH = TRIE_SHAPES_QUICK + [(1, 1, 1), (2, 2, 1), (3, 2)]
+
+
+def check_c16(rep):
+    rep.statement = ('trie stage only: for the stated shapes of input (2-3 clusters of 1-3 one-code-point graphemes with exact repeat counts '
+                     '1..=3, the form the cluster converter produces) the automaton built by Dfa::from WITHOUT minimisation (new, insert, '
+                     'return_next_state, find_next_state with its edge-label widening, add_new_state -- executed from MIR over a concrete-shape '
+                     'model of petgraph\'s StableGraph) accepts exactly the union of the inserted clusters. On this tree it does NOT: the solver '
+                     'returns the complete set of violating input shapes within the bound (known finding F5, edge widening conflates prefixes).')
+    rep.outside = ['Hopcroft minimisation (HashSet partition refinement, recreate_graph) and its minimality', 'state elimination on ndarray (Expression::from) and printing',
+                   'clusters with multi-code-point graphemes, counts > 3, more clusters than the stated shapes']
+    rep.assumptions += ['petgraph StableGraph is modelled with a concrete shape: nodes, edges in insertion order, neighbors() newest edge first, '
+                        'update_edge replaces the weight of an existing edge; BTreeSet/HashSet as duplicate-free lists']
+    env = Env(rep)
+    known, _ = load_known()
+    run_trie_obligations(rep, env, known, TRIE_SHAPES_QUICK if rep.tier == 'quick' else TRIE_SHAPES_THOROUGH)
+
+
+def replay_c16(env, rec):
+    bad, what, _ = replay_trie(env, [[tuple(x) for x in cl] for cl in rec['inputs']['clusters']])
+    return bool(bad), what
+
+
+# =========================================================================== C06 / C08  (Display for RegExp on literal ASTs)
+PRINT_FLAGS = [('cfg_is_case_insensitive_matching', 'ignore_case'), ('cfg_is_verbose_mode_enabled', 'verbose'),
+               ('cfg_is_start_anchor_disabled', 'no_start_anchor'), ('cfg_is_end_anchor_disabled', 'no_end_anchor'),
+               ('cfg_is_non_ascii_char_escaped', 'escape'), ('cfg_is_astral_code_point_converted_to_surrogate', 'surrogates')]
+
+
+def replay_printed_literal(env, seq, settings):
+    """build([s]) with the settings; the pattern must compile, carry the requested flags and anchors, and -- on a tiny universe
+    around the test case -- accept the test case and nothing else"""
+    got = env.eval([{'op': 'build', 'cases': [seq], 'settings': settings}])
+    if 'ok' not in got[0]:
+        return True, 'build() panics: %s' % str(got[0])[:160], got
+    pat = got[0]['ok']
+    text = ''.join(map(chr, pat))
+    problems = []
+    flag = '(?ix)' if settings.get('ignore_case') and settings.get('verbose') else '(?i)' if settings.get('ignore_case') else '(?x)' if settings.get('verbose') else ''
+    if not text.startswith(flag) or (not flag and text.startswith('(?')):
+        problems.append('flag prefix is not %r' % flag)
+    body = re.sub(r'\s+', '', text[len(flag):]) if settings.get('verbose') else text[len(flag):]
+    if body.startswith('^') == bool(settings.get('no_start_anchor')):
+        problems.append('start anchor %s' % ('present although disabled' if settings.get('no_start_anchor') else 'missing'))
+    ends = body.endswith('$') and not body.endswith('\\$')
+    if ends == bool(settings.get('no_end_anchor')):
+        problems.append('end anchor %s' % ('present although disabled' if settings.get('no_end_anchor') else 'missing'))
+    if not (settings.get('escape') and settings.get('surrogates') and any(c >= 0x10000 for c in seq)):
+        alphabet = sorted(set(seq + [0x20, 0x09, 0x78, 0x2003, 0xA0]))
+        anchored = '^' + text if False else text
+        lang = env.eval([{'op': 'regex_language', 'pattern': pat, 'alphabet': alphabet, 'max_len': len(seq) + 1}])[0].get('ok')
+        if not isinstance(lang, list):
+            problems.append('the pattern does not compile')
+        else:
+            if seq not in lang:
+                problems.append('does not match the test case')
+            same = lambda w: ''.join(map(chr, w)).lower() == ''.join(map(chr, seq)).lower() if settings.get('ignore_case') else w == seq
+            extra = [w for w in lang if not same(w)]
+            if extra:
+                problems.append('also matches %s' % [''.join(map(chr, w)) for w in extra[:4]])
+    return bool(problems), 'build([%s], %s) = %s: %s' % ('+'.join(u(x) for x in seq), ','.join(k for k, v in settings.items() if v), json.dumps(text), '; '.join(problems) or 'ok'), got
+
+
+def run_printer_obligations(rep, env, known, which):
+    obs = []
+    if which == 'C06':
+        obs.append(ob_add(rep, Q.q06d(env.ctx, 1)))
+        if rep.tier == 'thorough':
+            single = obs[0].verdict.models if obs[0].result == 'sat' else []
+            obs.append(ob_add(rep, Q.q06d(env.ctx, 2)))
+    else:
+        obs.append(ob_add(rep, Q.q06d(env.ctx, 1, alnum=True)))
+        obs.append(ob_add(rep, Q.q06d(env.ctx, 2, alnum=True)))
+    for o in obs:
+        if o.result != 'sat':
+            continue
+        for m in o.verdict.models:
+            seq = [m[k] for k in sorted((k for k in m if re.fullmatch(r'c\d+', k)), key=lambda s_: int(s_[1:]))]
+            settings = {name: bool(m.get(var, False)) for var, name in PRINT_FLAGS}
+            bad, what, got = replay_printed_literal(env, seq, settings)
+            key = 'c=%s,%s' % ('+'.join(u(x) for x in seq), ','.join(k for k, v in sorted(settings.items()) if v) or 'default')
+            classify(rep, known, o.qid, key, what, {'inputs': {'print': seq, 'settings': settings}, 'observed': got}, bad)
+
+
+def check_c06(rep):
+    rep.statement = ('kernel "printing of a literal pattern": Display for RegExp on an AST that is one literal of 1 (thorough: 2) one-code-point '
+                     'graphemes, for EVERY scalar value and every combination of the case-insensitive, verbose, anchor, escaping, surrogate and '
+                     'capturing settings: the text starts with exactly the flag group the settings ask for ((?i), (?x), (?ix) or none), carries '
+                     '^ / $ exactly when not disabled, and writes each code point in a form that the regex crate reads as exactly that literal -- '
+                     'under (?x) too: spaces, #, line breaks and every other whitespace must be escaped, not ignored and not widened to a class.')
+    rep.outside = ['alternations, character classes, concatenations, repetitions (format.rs) and groups', 'syntax highlighting (C15 kernel)',
+                   'language equality of whole patterns with and without each option', 'capturing vs non-capturing groups']
+    env = Env(rep)
+    known, _ = load_known()
+    run_printer_obligations(rep, env, known, 'C06')
+
+
+def check_c08(rep):
+    rep.statement = ('clause 1 only, for literal patterns: Display for RegExp on a literal AST of 1-2 alphanumeric code points under every '
+                     'combination of settings prints ^ first (after the flag group) exactly when the start anchor is not disabled and $ last '
+                     'exactly when the end anchor is not disabled, and nothing else around the literal.')
+    rep.outside = ['"searching a test case yields the whole test case": alternation order x leftmost-first semantics of the regex engine, the '
+                   'rotation / fallback loop of RegExp::from (calls Regex::new and find_iter)', 'non-literal ASTs']
+    env = Env(rep)
+    known, _ = load_known()
+    run_printer_obligations(rep, env, known, 'C08')
+
+
+def replay_c06(env, rec):
+    bad, what, _ = replay_printed_literal(env, rec['inputs']['print'], rec['inputs']['settings'])
     return bad, what
 
 
@@ -1213,8 +1420,8 @@ def replay_c15(env, rec):
 
 
 # --------------------------------------------------------------------------- driver
-CHECKS = {'C03': check_c03, 'C04': check_c04, 'C07': check_c07, 'C09': check_c09, 'C10': check_c10, 'C11': check_c11, 'C12': check_c12, 'C15': check_c15, 'C05': check_c05, 'C13': check_c13}
-REPLAYS = {'C03': replay_c03, 'C04': replay_c04, 'C07': replay_c07, 'C09': replay_c09, 'C10': replay_c10, 'C11': replay_c11, 'C12': replay_c12, 'C15': replay_c15, 'C05': replay_c05, 'C13': replay_c05}
+CHECKS = {'C03': check_c03, 'C04': check_c04, 'C07': check_c07, 'C09': check_c09, 'C10': check_c10, 'C11': check_c11, 'C12': check_c12, 'C15': check_c15, 'C05': check_c05, 'C13': check_c13, 'C16': check_c16, 'C06': check_c06, 'C08': check_c08}
+REPLAYS = {'C03': replay_c03, 'C04': replay_c04, 'C07': replay_c07, 'C09': replay_c09, 'C10': replay_c10, 'C11': replay_c11, 'C12': replay_c12, 'C15': replay_c15, 'C05': replay_c05, 'C13': replay_c05, 'C16': replay_c16, 'C06': replay_c06, 'C08': replay_c06}
 
 
 def write_evidence(rep, exit_code):
@@ -1258,7 +1465,7 @@ def write_evidence(rep, exit_code):
             'known_findings_reported': [k for k, _w in rep.known],
             'violations_reported': [{'key': k, 'what': w, 'replay': p} for k, w, p in rep.violations],
             'translator_validation': rep.validation,
-            'oracle': rep.info.get('oracle'), 'toolchains': {k: v for k, v in rep.info.items() if k != 'oracle'},
+            'oracle': rep.info.get('oracle'), 'toolchains': {k: v for k, v in rep.info.items() if k not in ('oracle', '_seen_keys')},
             'exit_code': exit_code,
         },
     }
